@@ -204,6 +204,9 @@ func (c *Ctx) Internal(format string, a ...any) {
 func (c *Ctx) Fail(class string, cs any, format string, a ...any) {
 	msg := fmt.Sprintf(format, a...)
 	raw, _ := json.Marshal(cs)
+	if d, ok := os.LookupEnv("VERIF_DEBUG_CLASS"); ok && d == class {
+		fmt.Fprintf(os.Stderr, "DEBUG class=%q %s\n", class, oneLine(msg, 700))
+	}
 	c.mu.Lock()
 	defer c.mu.Unlock()
 	if class != "" {
